@@ -408,6 +408,9 @@ def build_gen(name, seed, rng):
     rows = np.arange(n, dtype=float) + rng.uniform(0, 0.5)
     if name in ("obs", "obs_eq"):
         eqp = {"theta": jnp.asarray((rows + 100)[:, None])} if name == "obs_eq" else {}
+        if name == "obs_eq" and seed % 3 != 2:
+            # a second observed parameter, written after "theta" (insertion order differs from the sorted one)
+            eqp["alpha"] = jnp.asarray((rows + 200)[:, None])
         return jinns.data.DataGeneratorObservations(key, 2, jnp.asarray(np.stack([rows, rows * 10], 1)),
                                                     jnp.asarray(rows[:, None]), eqp), 3
     if name in ("param", "param_user"):
